@@ -410,11 +410,17 @@ def ordered_cells(table):
 
 
 def run(prop, table, shard, rec, n_cases, tol_exp=8, tmax=10.0, bits_choices=(53, 53, 20, 100)):
-    """budget_s of the shard is CPU time of the worker (wall clock only as a safety net: 8 x budget)"""
+    """budget_s of the shard is CPU time of the worker (wall clock only as a safety net: shard['wall_s'], default 8 x budget)"""
     import mpmath
     tree_mp = mpmath.mp
     r = G.rng(prop, shard['seed'], shard['shard'])
     cells = ordered_cells(table)
+    import os, re
+    if os.environ.get('VERIF_CELLS'):
+        # focused run (self-validation of mutants on a loaded machine): only cells whose 'function/label' matches
+        pat = re.compile(os.environ['VERIF_CELLS'])
+        cells = [c for c in cells if pat.search('%s/%s' % (c[0], c[1].label))] or cells
+        rec.note('focused-run', os.environ['VERIF_CELLS'])
     nsh = shard.get('nshards', 16)
     mine = [c for i, c in enumerate(cells) if i % nsh == shard['shard'] % nsh]
     if not mine:
@@ -423,7 +429,7 @@ def run(prop, table, shard, rec, n_cases, tol_exp=8, tmax=10.0, bits_choices=(53
     quick = shard.get('tier') == 'quick'
     budget = shard.get('budget_s', 1e9)
     c_end = time.process_time() + budget
-    w_end = time.time() + 8 * budget
+    w_end = time.time() + shard.get('wall_s', 8 * budget)
     i = 0
     while i < n_cases and time.process_time() < c_end and time.time() < w_end:
         fname, rg = mine[i % len(mine)]
